@@ -9,8 +9,8 @@
         elide: it does not, and the first body is empty while the previous last instruction is its terminator;
         no: it does not, for another reason
      O  own_code (frame): 1 / 0        W  wf_report bits        D  ok / untypable (infer_depths) *)
-let rec nat_of_int (i : int) : nat = if i <= 0 then O else S (nat_of_int (i - 1))
-let rec int_of_nat (n : nat) : int = match n with O -> 0 | S m -> 1 + int_of_nat m
+let nat_of_int (i : int) : nat = let rec go k acc = if k <= 0 then acc else go (k - 1) (S acc) in go i O
+let int_of_nat (n : nat) : int = let rec go n acc = match n with O -> acc | S m -> go m (acc + 1) in go n 0
 
 let tt_table : token_type array = Array.of_list all_token_type
 let instr_table : instruction array = Array.of_list all_instruction
@@ -38,7 +38,7 @@ let parse_instr (s : string) : instruction * operand =
   let rest = String.sub s !k (n - !k) in
   let o =
     if rest = "-" then ONone
-    else if rest.[0] = 'd' then OData (nat_of_int 1000000)
+    else if rest.[0] = 'd' then OData (nat_of_int 100000)
     else if rest.[0] = 'n' then ONum (nat_of_int (int_of_string (String.sub rest 1 (String.length rest - 1))))
     else if rest.[0] = 'x' then OExpr (nat_of_int (int_of_string (String.sub rest 1 (String.length rest - 1))))
     else failwith ("bad operand " ^ s) in
